@@ -234,6 +234,17 @@ def r63_65(ctx, prog):
             first_succ = succ[0] if succ else None
             expect = {'int': 'Int', 'float': 'Float', 'bool': 'Boolean', 'join': 'Float', None: 'Identifier'}[first_succ]
             stops = not succ or att[-1][0] == first_succ
+            for t in p['tests']:
+                if not (isinstance(t, tuple) and len(t) == 2 and isinstance(t[0], str)) or t[0] == 'eq':
+                    continue
+                term = t[0]
+                allowed = (term.startswith('discriminant(') and any(k in term for k in ('strip_prefix(', 'from_hex_str(', 'from_str::<', 'parse::<', '::cloned(', 'map_err('))) \
+                    or ('PartialEq::eq(' in term and 'PartialToken::' in term)
+                if not allowed and '$tokens' in term:
+                    ctx.violation('R6.3', 'literal-path[extra-test]', 'extra-gate', 'the classification of a word depends on an additional test of its text (%s = %s) besides the int/float/bool/join attempts; such a gate changes which words are numbers (e.g. `.5e-3`)' % (term[:120], t[1]), span=f.span)
+            signs_held = [t for t in p['tests'] if isinstance(t, tuple) and len(t) == 2 and isinstance(t[0], str) and 'PartialEq::eq(' in t[0] and 'PartialToken::' in t[0] and t[1] in ('$otherwise', '1')]
+            if kind == 'Identifier' and signs_held and p['proven_len'] >= 3 and 'join' not in kinds:
+                ctx.violation('R6.3', 'literal-path[join-not-attempted]', 'join-gated', 'a word that is no int/float/bool, followed by `-`/`+` and a third token, is declared an identifier without attempting the scientific-notation join (an extra condition on the word gates the join; e.g. `.5e-3` would stop being a float)', span=f.span)
             if not (okorder and kind == expect and stops):
                 ctx.violation('R6.3', 'literal-path[%s]' % kind, 'classification-order', 'a word is classified %s after attempts %s (order must be int, float, bool, join, identifier; the first success decides)' % (kind, att), span=f.span)
     if bad65 == 0:
